@@ -85,6 +85,12 @@ fn run_sync_side(sock: UnixStream, calls: &[(Mods, Op, u8)], closing: bool, gone
     let mut conn = match LdapConn::with_settings(st, "ldapi:///") { Ok(c) => c, Err(e) => return vec![format!("connect-err:{}", err_class(&e))] };
     let mut out = vec![];
     for (m, op, streaming) in calls {
+        let (doubled, streaming) = (*streaming & 0x80 != 0, &(*streaming & 0x7f));
+        if doubled {
+            if m.ctrls.is_some() { conn.with_controls(ldap3::controls::RawControl { ctype: "1.2.3.4.5".into(), crit: false, val: Some(vec![1, 2, 3]) }); }
+            if m.timeout.is_some() { conn.with_timeout(Duration::from_millis(7777)); }
+            if m.opts.is_some() { conn.with_search_options(SearchOptions::new().sizelimit(1)); }
+        }
         if let Some(cs) = &m.ctrls { conn.with_controls(ctl(cs)); }
         if let Some(t) = m.timeout { conn.with_timeout(Duration::from_millis(t)); }
         if let Some((d, ty, tl, sl)) = m.opts { conn.with_search_options(SearchOptions::new().deref(deref_of(d)).typesonly(ty).timelimit(tl as i32).sizelimit(sl as i32)); }
@@ -126,6 +132,12 @@ async fn run_async_side(sock: UnixStream, calls: &[(Mods, Op, u8)], closing: boo
     tokio::spawn(async move { let _ = conn.drive().await; });
     let mut out = vec![];
     for (m, op, streaming) in calls {
+        let (doubled, streaming) = (*streaming & 0x80 != 0, &(*streaming & 0x7f));
+        if doubled {
+            if m.ctrls.is_some() { ldap.with_controls(ldap3::controls::RawControl { ctype: "1.2.3.4.5".into(), crit: false, val: Some(vec![1, 2, 3]) }); }
+            if m.timeout.is_some() { ldap.with_timeout(Duration::from_millis(7777)); }
+            if m.opts.is_some() { ldap.with_search_options(SearchOptions::new().sizelimit(1)); }
+        }
         if let Some(cs) = &m.ctrls { ldap.with_controls(ctl(cs)); }
         if let Some(t) = m.timeout { ldap.with_timeout(Duration::from_millis(t)); }
         if let Some((d, ty, tl, sl)) = m.opts { ldap.with_search_options(SearchOptions::new().deref(deref_of(d)).typesonly(ty).timelimit(tl as i32).sizelimit(sl as i32)); }
@@ -168,7 +180,7 @@ pub fn gen(rng: &mut Rng, n: usize, out: &mut Vec<String>) {
             if behaviour == "silent" { m.timeout = Some(80); } else { m.timeout = m.timeout.map(|_| 3000); }
             let o = if j == k - 1 && rng.chance(1, 6) { Op::Unbind } else { rand_op(rng) };
             let pre = if matches!(o, Op::Search(..)) { *rng.pick(&["", "S", "S", "A"]) } else { "" };
-            toks.push(show_mods(&m)); toks.push(format!("{}{}", pre, show_op(&o)));
+            let mt = show_mods(&m); toks.push(if rng.chance(1, 4) && mt.starts_with('m') { mt.replacen('m', "d", 1) } else { mt }); toks.push(format!("{}{}", pre, show_op(&o)));
         }
         out.push(format!("sync {} {}", behaviour, toks.join(" ")));
     }
@@ -177,7 +189,9 @@ pub fn gen(rng: &mut Rng, n: usize, out: &mut Vec<String>) {
 pub fn run(args: &[&str]) -> (String, Option<String>) {
     let behaviour = args[0].to_string();
     // "Ssearch/.." = streaming_search, "Asearch/.." = streaming_search_with(EntriesOnly), "search/.." = search()
-    let calls: Vec<(Mods, Op, u8)> = args[1..].chunks(2).map(|c| { let (st, o) = if c[1].starts_with("Ssearch/") { (1u8, &c[1][1..]) } else if c[1].starts_with("Asearch/") { (2u8, &c[1][1..]) } else if c[1].starts_with("Zsearch/") { (3u8, &c[1][1..]) } else { (0u8, c[1]) }; (parse_mods(c[0]), parse_op(o), st) }).collect();
+    let calls: Vec<(Mods, Op, u8)> = args[1..].chunks(2).map(|c| { let (st, o) = if c[1].starts_with("Ssearch/") { (1u8, &c[1][1..]) } else if c[1].starts_with("Asearch/") { (2u8, &c[1][1..]) } else if c[1].starts_with("Zsearch/") { (3u8, &c[1][1..]) } else { (0u8, c[1]) }; // a modifier token starting with "d": every modifier it names is first called with a throw-away value, then with the real one (the last call
+        // wins - on both APIs alike); carried in the high bit of the mode byte
+        (parse_mods(&if c[0].starts_with('d') { format!("m{}", &c[0][1..]) } else { c[0].to_string() }), parse_op(o), if c[0].starts_with('d') { st | 0x80 } else { st }) }).collect();
     let run_one = |sync_side: bool| -> Option<(Vec<String>, Vec<String>)> {
         let (a, b) = UnixStream::pair().ok()?;
         let log = Arc::new(Mutex::new(vec![])); let l2 = log.clone(); let bh = behaviour.clone();
